@@ -19,6 +19,14 @@ META = {
 }
 
 
+def _r14_1(ctx):
+    import props.c14 as c14
+    c14.r14_1(ctx)
+
+
+_r14_1.__name__ = 'r14_1'
+
+
 def run(ctx):
     import engine
-    engine.run_rules(ctx, [dt.r06_1, dt.r06_2, dt.r06_3, dt.r06_4, dt.r06_5, dt.r05_3, dt.r05_6, dt.r03_2, dt.r03_6, dt.r02_6, dt.r02_1, dt.r02_7])
+    engine.run_rules(ctx, [dt.r06_1, dt.r06_2, dt.r06_3, dt.r06_4, dt.r06_5, dt.r05_3, dt.r05_6, dt.r03_2, dt.r03_6, dt.r02_6, dt.r02_1, dt.r02_7, _r14_1])
